@@ -13,6 +13,15 @@ Bump(k) == TLCSet(k, TLCGet(k) + 1)
 \* registers: 1 line, 2 judged writes, 3 writes with >= 2 Produces entries and >= 2 ranges (a
 \* ranking decision), 4 membership-only (malformed q, or no allowed choice)
 
+\* a request may carry several Accept fields; "the Accept header" is then either the first field (what
+\* Header.Get returns) or all fields joined by a comma (RFC 7230) - but one reading for the whole request:
+\* the handler ran, so under the chosen reading the router may have admitted it
+Readings(ev) == {ev.acc} \cup (IF ev.acc2 = "" THEN {} ELSE {ev.acc \o "," \o ev.acc2})
+BestUnder(ev, reg, cts) ==
+  \E a \in Readings(ev) :
+     /\ AcceptMay(ev.produces, a)
+     /\ ~WellFormedQ(a) \/ BestSet(ev.produces, reg, a) = {} \/ cts \subseteq BestSet(ev.produces, reg, a)
+
 CheckNego(line, ev) ==
   LET reg  == SeqToSet(ev.registered)
       best == BestSet(ev.produces, reg, ev.acc)
@@ -24,9 +33,11 @@ CheckNego(line, ev) ==
           /\ IF Cardinality(cts) <= 1 /\ Len(ev.sts) <= 1 THEN TRUE ELSE Mis(line, "C05.deterministic", ev.cts)
           /\ 406 \notin SeqToSet(ev.sts) =>
                /\ IF cts \subseteq (SeqToSet(ev.produces) \cap reg) THEN TRUE ELSE Mis(line, "C05.member", ev.cts)
-               /\ IF WellFormedQ(ev.acc) /\ best # {}
-                  THEN (IF cts \subseteq best THEN TRUE ELSE Mis(line, "C05.best", <<ev.cts, SetToSeq(best)>>))
-                  ELSE Bump(4)
+               /\ IF ev.acc2 = ""
+                  THEN (IF WellFormedQ(ev.acc) /\ best # {}
+                        THEN (IF cts \subseteq best THEN TRUE ELSE Mis(line, "C05.best", <<ev.cts, SetToSeq(best)>>))
+                        ELSE Bump(4))
+                  ELSE (IF BestUnder(ev, reg, cts) THEN TRUE ELSE Mis(line, "C05.best", <<ev.cts, ev.acc, ev.acc2>>))
                /\ IF ev.dec THEN TRUE ELSE Mis(line, "C05.decodes", ev.cts)
           /\ IF Len(ev.produces) >= 2 /\ ev.acc # "" /\ Len(AcceptRanges(ev.acc)) >= 2 THEN Bump(3) ELSE TRUE
 
